@@ -201,7 +201,7 @@ def check_history(ck, rule, inst, site, make, f, stubs=None, max_paths=48, stick
                 # a call that found its stored inputs *equal in content* to the current ones (torch.equal(kept copy, argument) taken
                 # as true) may hand out what it stored: on that path the overwritten argument holds the old values again
                 eq_reuse = k == 2 and any(len(c) > 3 and c[2] is True and getattr(c[3], "term", None) is not None
-                                          and any(isinstance(a_, T.App) and a_.op in ("tensor_equal", "tensor_allclose") and (a_.args[0].syms() | a_.args[1].syms()) & set(mapping.values())
+                                          and any(isinstance(a_, T.App) and a_.op == "tensor_equal" and (a_.args[0].syms() | a_.args[1].syms()) & set(mapping.values())
                                                   for a_ in c[3].term.all_atoms())
                                           for c in rec["conds"][k - 1])
                 if not differs:
@@ -212,6 +212,14 @@ def check_history(ck, rule, inst, site, make, f, stubs=None, max_paths=48, stick
                     ck.violation(rule, name, site, "after %s, the next call still returns a value computed from the previous %s: a stored result is reused without being invalidated"
                                  % ("reinitialize_parameters() created new parameters" if rec.get("mode") and k == 1 else what[k - 1], ", ".join(sorted(stale)[:4])),
                                  key="%s|%s|stale%d%s" % (rule, inst, k, "r" if rec.get("mode") else ""))
+                elif stale and _guard_atoms(rec["conds"][k - 1], set(mapping.values()), "tensor_equal"):
+                    # the stored inputs were found equal in content to the current ones: what was computed from them is current
+                    ck.ok(rule, name + " (reuse under torch.equal of the kept and the current values)", site)
+                elif stale and _guard_atoms(rec["conds"][k - 1], set(mapping.values()), "tensor_allclose"):
+                    ck.violation(rule, name, site, "after %s, the next call returns the value computed from the previous %s whenever the new values are within torch.allclose's tolerance of the kept ones "
+                                 "(rtol 1e-5, atol 1e-8): closeness of the inputs is not equality, the result handed out belongs to other parameters"
+                                 % (what[k - 1] if not (rec.get("mode") and k == 1) else "reinitialize_parameters() created new parameters", ", ".join(sorted(stale)[:4])),
+                                 key="%s|%s|stale under allclose" % (rule, inst))
                 elif stale:
                     cd = [c[1][:60] for c in rec["conds"][k - 1]][:2]
                     ck.undecided(rule, name, site, "the call may reuse a value computed from the previous %s; whether it does depends on %s" % (", ".join(sorted(stale)[:3]), cd))
@@ -230,6 +238,15 @@ def check_history(ck, rule, inst, site, make, f, stubs=None, max_paths=48, stick
             if not shared and len(b1) == len(a1):
                 ck.check(all(x == y for x, y in zip(a1, b1)), rule, "%s:the first result is left alone by the second call [%s]" % (inst, tag), site,
                          "the value handed out by the first call was modified by the second call", key="%s|%s|clobbered" % (rule, inst))
+
+
+def _guard_atoms(conds, new_syms, op):
+    """A condition decided True between the two calls whose value contains `op`(a, b) with a current (renamed) input on one side."""
+    for c in conds:
+        t_ = getattr(c[3], "term", None) if len(c) > 3 else None
+        if c[2] is True and t_ is not None and any(isinstance(a_, T.App) and a_.op == op and (a_.args[0].syms() | a_.args[1].syms()) & new_syms for a_ in t_.all_atoms()):
+            return True
+    return False
 
 
 def _ints_eq(x, y):
